@@ -47,10 +47,11 @@ var props = []prop{
 		LevelNote:   "Trusts that synchronizedWithNetwork is the only decision point (robustirc.go calls it through the two exported wrappers) and that a measurement is fully described by Start/Result/End.",
 		Technique:   "property-based testing (rapid): soundness oracle + metamorphic relation over generated measurements",
 		DesignRef:   "4/C19",
-		Rule:        "cases are lists of 0-6 peers, each with a true clock offset, a request delay and a response delay (dense around +-2s, from ns to hours), answering or silent, under both settings of -disable_timesafeguard; non-trivial = some answering peer has |offset| in [1s,3s] or a round trip > 1s; distinct = hash of the concrete measurement list + flag",
-		Assumptions: []string{"a measurement is Start=t0, Result=t0+d1+offset, End=t0+d1+d2 with d1,d2 >= 0"},
+		Rule:        "cases are lists of 0-6 peers, each with a true clock offset, a request delay and a response delay (dense around +-2s, from ns to hours), answering or silent, under both settings of -disable_timesafeguard; non-trivial = some answering peer has |offset| in [1s,3s] or a round trip > 1s; distinct = hash of the concrete measurement list + flag. Unit network: cases are 0-5 peers served by real TLS status servers (in sync within 400ms / off by >= 4s / not answering in four ways), restart or -join path; non-trivial = at least one silent and one answering peer",
+		Assumptions: []string{"a measurement is Start=t0, Result=t0+d1+offset, End=t0+d1+d2 with d1,d2 >= 0", "unit network runs in real time: a check that takes longer than 1.2s and refuses in-sync peers is counted as inconclusive (label), never reported"},
 		Units: []unit{
 			{Name: "safeguard", Pkg: "internal/timesafeguard", Harness: "timesafeguard", Run: "^TestVerifC19$", Rapid: true, Quick: 160000, Thorough: 16000000, QuickTimeoutS: 300, ThoroughTimeoutS: 3000},
+			{Name: "network", Pkg: "internal/timesafeguard", Harness: "timesafeguard", Run: "^TestVerifC19Network$", Rapid: true, Quick: 1600, Thorough: 40000, QuickTimeoutS: 600, ThoroughTimeoutS: 3000},
 		},
 	},
 }
@@ -205,10 +206,11 @@ func init() {
 		LevelNote:   "The consumer applies the handler's one-line recipient filter; JSON streaming and supersede logic of the HTTP handler are exercised by the in-process node checks. The 250 ms back-off is real time and never used as a correctness signal.",
 		Technique:   "property-based testing with a controlled scheduler (rapid-drawn interleavings) and a sequence oracle over the concatenated reads",
 		DesignRef:   "4/C04",
-		Rule:        "case = 1-7 batches (1-4 replies, recipient subsets of 3 sessions), 1-3 nodes with generated applied prefixes, 1-4 connections (node, batches applied meanwhile, messages consumed before the disconnect, compaction before reconnect) + one schedule per connection; non-trivial = >=2 connections and a reconnect inside a multi-reply batch or to a node that is behind the resume point; distinct = hash of case + schedules",
+		Rule:        "case = 1-7 batches (1-4 replies, recipient subsets of 3 sessions), 1-3 nodes with generated applied prefixes, 1-4 connections (node, batches applied meanwhile, messages consumed before the disconnect, compaction before reconnect) + one schedule per connection; non-trivial = >=2 connections and a reconnect inside a multi-reply batch or to a node that is behind the resume point; distinct = hash of case + schedules. Unit node: case = 1-10 generated IRC lines (multi-target commands, listings, NICK/QUIT relays) by 3 sessions on an in-process node with or without a services link; the observer's complete stream is read, then resumed at the id of every one of its messages; non-trivial = a generated line produced a batch of >=2 messages for the observer (a resume point inside it)",
 		Assumptions: []string{"resume points are newer than the compaction horizon of the node", "the last connection stays open on a node that eventually applies every batch"},
 		Units: []unit{
 			{Name: "resume", Pkg: "internal/api", Harness: "api_vsync", Mode: "vsync", Run: "^TestVerifC04$", Rapid: true, Quick: 8000, Thorough: 160000, QuickTimeoutS: 600, ThoroughTimeoutS: 3000},
+			nodeUnit("node", "^TestVerifC04Node$", 320, 8000),
 		},
 	})
 }
